@@ -230,6 +230,8 @@ DriveOut drive_reader(const Task &t, const Bytes &archive, const DriveOpts &o) {
 				failed_value = ob.result == 0;
 			}
 			ob.api_state = state;
+			if (g_sim.fail_fired && !fired_before) count(std::string("probe.alloc_failure_during.") + op.kind);
+			if (ob.kind == "next" && !ob.hdr.null && ob.result) count(ob.hdr.is_link() ? "probe.deferred_symlink_represented" : "probe.directory_represented");
 			if (g_sim.fail_fired && !fired_before && !failed_value && !out.alloc_fail_misreported) {
 				out.alloc_fail_misreported = true;
 				out.alloc_fail_detail = strf("op %zu (%s) reported success although allocation #%lld made during it failed: %s",
